@@ -1,6 +1,7 @@
 import Verif.Spec.Flat
 import Verif.Properties.C12
 import Verif.Proofs.Flat
+import Verif.Properties.C01Skeleton
 
 /-!
 # C02 / C05 / C06 — the output validators say what they are meant to say
@@ -61,5 +62,30 @@ theorem local_sound (canon : String → String) (d : J) (h : nonLocal canon d = 
 theorem referenced_sound (canon : String → String) (d : J) (h : unreferenced canon d = []) :
     ∀ kv ∈ d.getObj "definitions", ∃ tr ∈ allRefs d, tr.2 = canon kv.1 :=
   Proofs.Flat.unreferenced_nil h
+
+/-! ### first half of C02 on the pipeline model: the phases after the expansion leave the non-schema `$ref`s alone
+
+Phase 1 (`spec.ExpandSpec`, a library call) replaces every parameter, response, path-item and items
+`$ref` by its target.  Every later phase writes only inside schema positions (`C01.pipeline_keeps_skeleton`),
+so whatever `$ref` a parameter, a response, a path item or an items object carries — in particular:
+none — when the expansion is done, it carries when Flatten returns: for every document, option set,
+table and fuel. -/
+
+/-- the `$ref` member of a parameter, a response, a path item, or an items / header object below
+    `paths` is the same before and after the pipeline (absent stays absent) -/
+theorem nonschema_refs_untouched (fc : Facts) (x : Flatten.Ext) (o : Flatten.Opts) (fuel : Nat) (s s' : Flatten.St)
+    (h : Flatten.flatten fc x o fuel s = .ok s') (toks : List String)
+    (hr : Proofs.Skeleton.reachesOther .paths (toks ++ ["$ref"]) = true) :
+    Spec.Pointer.get s'.doc ("paths" :: (toks ++ ["$ref"])) = Spec.Pointer.get s.doc ("paths" :: (toks ++ ["$ref"])) :=
+  C01.pipeline_keeps_paths fc x o fuel s s' h (toks ++ ["$ref"]) hr
+
+example : Proofs.Skeleton.reachesOther .paths (["/p", "get", "parameters", "0"] ++ ["$ref"]) = true := by decide
+example : Proofs.Skeleton.reachesOther .paths (["/p", "parameters", "2"] ++ ["$ref"]) = true := by decide
+example : Proofs.Skeleton.reachesOther .paths (["/p", "get", "responses", "200"] ++ ["$ref"]) = true := by decide
+example : Proofs.Skeleton.reachesOther .paths (["/p"] ++ ["$ref"]) = true := by decide
+example : Proofs.Skeleton.reachesOther .paths (["/p", "get", "parameters", "0", "items", "items"] ++ ["$ref"]) = true := by decide
+example : Proofs.Skeleton.reachesOther .paths (["/p", "get", "responses", "default", "headers", "X-A", "items"] ++ ["$ref"]) = true := by decide
+/-- … whereas the `$ref` of a schema is exactly what the phases rewrite -/
+example : Proofs.Skeleton.reachesOther .paths (["/p", "get", "responses", "200", "schema"] ++ ["$ref"]) = false := by decide
 
 end C02
